@@ -327,9 +327,63 @@ fn viol(acc: &mut Acc, q: &Quad, what: &str, detail: String, history: &[(i32, bo
     );
 }
 
+/// Fill one array completely (all 88 slots initialized, random order) and empty it again (another random order),
+/// with the encoding oracle after every update and the complete query set every `q_every` updates and at the two
+/// extremes. Random toggling never reaches a full array; the last insertions are where the packed region is longest.
+pub fn fill_and_drain(start: i32, spacing: u16, r: &mut rnd::R, q_every: usize, acc: &mut Acc) {
+    let mut q = Quad::new(start, spacing);
+    let mut hist: Vec<(i32, bool)> = vec![];
+    let usable: Vec<i32> = (0..88).map(|s| q.slot_index(s)).filter(|i| q.model_slot(*i).is_some()).collect();
+    for phase_init in [true, false] {
+        let mut order = usable.clone();
+        for i in (1..order.len()).rev() {
+            order.swap(i, r.gen_range(0..=i));
+        }
+        for (k, idx) in order.iter().enumerate() {
+            hist.push((*idx, phase_init));
+            acc.count("fill_drain_updates");
+            if let Err(e) = q.update(*idx, phase_init.then(|| rand_td(r))) {
+                viol(acc, &q, "update_disagreement", e, &hist);
+                return;
+            }
+            if let Err(e) = q.check_encoding() {
+                viol(acc, &q, "encoding", e, &hist);
+                return;
+            }
+            // a modification of an already initialized tick while the array is (nearly) full
+            if phase_init && k + 3 >= order.len() {
+                let j = order[r.gen_range(0..=k)];
+                hist.push((j, true));
+                if let Err(e) = q.update(j, Some(rand_td(r))).and_then(|_| q.check_encoding()) {
+                    viol(acc, &q, "encoding", e, &hist);
+                    return;
+                }
+            }
+            let last = k + 1 == order.len();
+            if last || k % q_every == 0 {
+                if let Err(e) = q.check_all_queries(acc) {
+                    viol(acc, &q, "query_disagreement", e, &hist);
+                    return;
+                }
+            } else {
+                let i2 = q.start.saturating_add(r.gen_range(-2..90) * spacing as i32);
+                acc.evaluations += 1;
+                if let Err(e) = q.check_get(i2).and_then(|_| q.check_next(i2, r.gen())) {
+                    viol(acc, &q, "query_disagreement", e, &hist);
+                    return;
+                }
+            }
+            if last && phase_init {
+                acc.count("arrays_filled_completely");
+            }
+        }
+    }
+    acc.count("fill_drain_sweeps");
+}
+
 pub fn run(tier: Tier, seed: u64) -> i32 {
     let mut rep = Report::new("C13", tier, seed);
-    rep.rule = "exhaustive: for spacings {1,64,32896} x starts {0, a negative array, the MIN-straddling array}, every subset (256) of the boundary slots {0,1,62,63,64,65,86,87} as initialized set, every single update (initialize/modify, de-initialize) of every boundary slot, and after each the complete query set (get_tick on slots -2..89, unaligned and out-of-bounds indexes; get_next_init_tick_index from every slot in both directions incl. the shifted range) compared across Anchor fixed, Anchor dynamic, Pinocchio fixed, Pinocchio dynamic and an abstract slot map, plus encoding well-formedness (bitmap, 113/1-byte records in slot order, used length 148+112n, Anchor bytes == Pinocchio bytes). random: long update/query sequences over all 88 slots. distinct = (spacing, start class, initialized-set, transition)".into();
+    rep.rule = "exhaustive: for spacings {1,64,32896} x starts {0, a negative array, the MIN-straddling array}, every subset (256) of the boundary slots {0,1,62,63,64,65,86,87} as initialized set, every single update (initialize/modify, de-initialize) of every boundary slot, and after each the complete query set (get_tick on slots -2..89, unaligned and out-of-bounds indexes; get_next_init_tick_index from every slot in both directions incl. the shifted range) compared across Anchor fixed, Anchor dynamic, Pinocchio fixed, Pinocchio dynamic and an abstract slot map, plus encoding well-formedness (bitmap, 113/1-byte records in slot order, used length 148+112n, Anchor bytes == Pinocchio bytes). random: long update/query sequences over all 88 slots, one in ten a fill-and-drain sweep (every slot initialized in random order until the array is full, then emptied). distinct = (spacing, start class, initialized-set, transition)".into();
     rep.exhaustive = true;
     rep.assumptions = vec![
         "buffers are allocated at the maximum encoded size (on chain: 10 KiB realloc padding behind every account)".into(),
@@ -427,6 +481,12 @@ pub fn run(tier: Tier, seed: u64) -> i32 {
                     (r.gen_range(lo..=hi) * tia) as i32
                 }
             };
+            if rnd::chance(&mut r, 1, 10) {
+                let before = acc.counters.get("fill_drain_updates").copied().unwrap_or(0);
+                fill_and_drain(st, sp, &mut r, 16, &mut acc);
+                done += acc.counters.get("fill_drain_updates").copied().unwrap_or(0) - before;
+                continue;
+            }
             let mut q = Quad::new(st, sp);
             let mut hist = vec![];
             let len = r.gen_range(20..400);
@@ -472,6 +532,7 @@ pub fn run(tier: Tier, seed: u64) -> i32 {
     rep.acc = acc;
     rep.floor("states", 256 * ncombos as u64 * 9 / 10);
     rep.floor("transitions", 16 * 256 * ncombos as u64 * 9 / 10);
-    rep.floor("random_updates", rand_ops * 9 / 10);
+    rep.floor("random_updates", rand_ops * 6 / 10);
+    rep.floor("arrays_filled_completely", 200);
     rep.finish()
 }
